@@ -53,6 +53,8 @@ def _colour(rng, rgb, role, notation=None):
 
 
 def _poison(rng):
+    if rng.random() < 0.3:
+        return enc(rng.choice(gen.POISON_WORDS))
     if rng.random() < 0.25:
         return enc(rng.choice(gen.NEAR_CSS))  # (accepted or rejected by the library: the single-pair API decides)
     if rng.random() < 0.6:
@@ -72,12 +74,17 @@ def _entry(rng, vr, poison_p, notation=None):
     if bx == "exotic":
         e["bg_exotic"] = True
     if rng.random() < poison_p:
-        which = rng.choice(("t", "b", "tb"))
+        which = rng.choice(("t", "b", "tb", "tb"))
         if "t" in which:
             e["t"] = _poison(rng)
         if "b" in which:
             e["b"] = _poison(rng)
             e["bg_rgb"] = None
+        if which == "tb" and rng.random() < 0.4:
+            # a row of plain words (the heading row of a CSV export): both cells, and the size cell too if there is one
+            e["t"], e["b"] = enc(rng.choice(gen.POISON_WORDS)), enc(rng.choice(gen.POISON_WORDS))
+            if e.get("large") is not None and rng.random() < 0.5:
+                e["large"] = rng.choice(("large", "size", "yes"))
         e["poison"] = which
     return e
 
@@ -104,6 +111,13 @@ def generate(rseed, tier, idx):
     if n >= 2 and g.random() < 0.4:  # duplicates
         for _ in range(g.randint(1, 2)):
             L[g.randrange(n)] = copy.deepcopy(L[g.randrange(n)])
+    if n >= 2 and g.random() < 0.3:  # the same two colours as normal AND as large text in one list (2- and 3-element forms)
+        src = L[g.randrange(n)]
+        if not src.get("poison"):
+            tw = copy.deepcopy(src)
+            tw["large"] = (None if g.random() < 0.5 else False) if src.get("large") else True
+            tw["size_twin"] = True
+            L[g.randrange(n)] = tw
     if n >= 2 and g.random() < 0.4:  # members of one alias family side by side (same other colour, same size)
         fam = gen.alias_family(g)
         role = g.choice(("t", "t", "b"))
